@@ -2940,10 +2940,9 @@ def transform_int(column_inds, column_vals, column_offsets, col_idx,
         valids = np.ones(written_row_count, dtype=bool)
         for i in range(written_row_count):
             try:
-                value, valid = int(elements[i]), True
+                results[i], valid = int(elements[i]), True
             except:
-                value, valid = invalid_value, False
-            results[i] = value
+                results[i], valid = invalid_value, False
             valids[i] = valid
     else:
         raise ValueError("'{}' is not a valid value for 'validation_mode'")
